@@ -12,18 +12,18 @@ export CARGO_TARGET_DIR=$WT/target
 cd $WT || exit 2
 git checkout -q -- src ; rm -f tests/vp_demo.rs
 git apply $OUT/change$N.patch || { echo "patch does not apply in worktree"; exit 2; }
-cargo test --offline >/tmp/seed_base.log 2>&1; base_rc=$?
-nok=$(grep -c '^test .* ok$' /tmp/seed_base.log)
+cargo test --offline >$OUT/seed_base.log 2>&1; base_rc=$?
+nok=$(grep -c '^test .* ok$' $OUT/seed_base.log)
 mkdir -p tests; cp $OUT/demo$N.rs tests/vp_demo.rs
 FEAT=""; grep -q verif_hooks $OUT/demo$N.rs && FEAT="--features verif-hooks"
 grep -q matrix_card $OUT/demo$N.rs && FEAT="--features verif-hooks,matrix-card"
 [ -n "${EXTRA_FEATURES:-}" ] && FEAT="--features verif-hooks,$EXTRA_FEATURES"
-cargo test --offline $FEAT --test vp_demo >/tmp/seed_with.log 2>&1; with_rc=$?
+cargo test --offline $FEAT --test vp_demo >$OUT/seed_with.log 2>&1; with_rc=$?
 git checkout -q -- src
-cargo test --offline $FEAT --test vp_demo >/tmp/seed_without.log 2>&1; without_rc=$?
+cargo test --offline $FEAT --test vp_demo >$OUT/seed_without.log 2>&1; without_rc=$?
 rm -f tests/vp_demo.rs
 echo "suite-with-change: rc=$base_rc ok-tests=$nok | demo-with-change: rc=$with_rc | demo-without: rc=$without_rc"
-if [ $base_rc != 0 ] || [ $with_rc = 0 ] || [ $without_rc != 0 ]; then echo "NOT CONFIRMED"; tail -5 /tmp/seed_with.log; tail -5 /tmp/seed_without.log; exit 1; fi
+if [ $base_rc != 0 ] || [ $with_rc = 0 ] || [ $without_rc != 0 ]; then echo "NOT CONFIRMED"; tail -5 $OUT/seed_with.log; tail -5 $OUT/seed_without.log; exit 1; fi
 mkdir -p $DEST
 cp $OUT/change$N.patch $DEST/patch.diff; cp $OUT/demo$N.rs $DEST/demo.rs
 res=$(cd /verif && tools/mutant_lab.sh run $DEST/patch.diff "$@" 2>&1)
